@@ -243,7 +243,16 @@ void cmb_resource_release(struct cmb_resource *rp) {
     cmb_assert_debug(pp != NULL);
     cmi_process_remove_holdable(pp, hrp);
 
-    cmb_assert_debug(rp->holder == pp);
+    if (rp->holder != pp) {
+        /*
+         * Lost it to a preemptor, and the notice was overtaken by some other
+         * signal in the same instant. Nothing to give back, and the resource
+         * must not be freed under its new holder.
+         */
+        cmb_logger_info(stdout, "Released %s, already preempted", hrp->base.name);
+        return;
+    }
+
     rp->holder = NULL;
     record_sample(rp);
 
